@@ -267,7 +267,17 @@ struct Case {
 fn decode(bytes: &[u8]) -> Case {
     let mut c = Choices::new(bytes);
     let mut g = CardGen::new();
-    let module = g.module(&mut c, 0);
+    let mut module = g.module(&mut c, 0);
+    // one case in three: the module also has submodules with their own functions and cards. Those
+    // cards belong to the submodules (their indices start again at function 0 there): the edit API
+    // and the walk of this module must neither see nor touch them
+    if c.chance(85) {
+        let ns = 1 + c.draw(2);
+        for k in 0..ns {
+            let sub = g.module(&mut c, if k == 0 { 1 } else { 0 });
+            module.submodules.push((format!("sub{}", k), sub));
+        }
+    }
     // the op list is generated against a model that evolves with the ops, so that "valid" indices
     // stay valid in the middle of a history
     let mut model = MModule::of(&module);
@@ -643,6 +653,9 @@ impl Property for C16 {
         let mut obs = Obs { deep_edit_non_composite: false, failed_edit: false, parents: BTreeSet::new() };
         let fail = run_case(&case, &mut obs);
         let mut labels: Vec<String> = obs.parents.iter().cloned().collect();
+        if !case.module.submodules.is_empty() {
+            labels.push("submodules_with_cards".into());
+        }
         if obs.failed_edit {
             labels.push("failed_edit".into());
         }
